@@ -20,6 +20,7 @@ correspondence run on generated directory trees, not proved.
 -/
 import EtkVerif.Asm.IngestLemmas
 import EtkVerif.Asm.HexInclude
+import EtkVerif.Asm.FullTextPest
 namespace EtkVerif.C12
 open Asm
 
@@ -60,5 +61,21 @@ theorem C12_include_hex_exact (fs : FS) (cwd : PathC) (fuel : Nat) (prog : Progr
   have hx := hexDecode_trim_hexOf pre post bs hb hpre hpost
   simp only [nodesLoop, hroot, hcheck, hread, hx]
   simp
+
+open Asm.Layout Asm.FullText in
+/-- the TEXT of a directive — `%import` / `%include` / `%include_hex`, blanks anywhere the grammar allows, a quoted path
+with `\\` and `\"` escapes, any following layout — parses to the directive node carrying exactly the unescaped path -/
+theorem C12_text (d : Directive) (lead g1 g2 g3 : List Nat) (path : List PChar) (term : Layout.Term)
+    (hlead : Layout.IsBlanks lead) (hg1 : ExprText.IsBlanks g1) (hg2 : ExprText.IsBlanks g2) (hg3 : ExprText.IsBlanks g3)
+    (hpath : ∀ c ∈ path, c.WF) (hterm : term.WF) :
+    parseAsm (FullText.render [] [⟨lead, .directive d g1 g2 path g3, term⟩]) =
+      .ok [(FullText.Stmt.directive d g1 g2 path g3).node] := by
+  have h : FullText.WF [] [⟨lead, .directive d g1 g2 path g3, term⟩] := by
+    refine ⟨(by intro b hb; cases hb), ?_, trivial⟩
+    intro x hx
+    simp only [List.mem_singleton] at hx
+    subst hx
+    exact ⟨hlead, ⟨hg1, hg2, hpath, hg3⟩, hterm⟩
+  simpa using parse_full [] _ h
 
 end EtkVerif.C12
